@@ -260,7 +260,7 @@ func verifCompareSeq(want, got []verifMsg) (bool, string) {
 func verifJudge(m *mon.M, w verifWire, seg vnet.Seg, rep map[string]interface{}, scope string) {
 	// self-test of the reference: its own receiver must read what its sender wrote
 	d := refrtmp.NewDechunker()
-	rm, _, rerr := d.All(w.data)
+	rm, ends, rerr := d.All(w.data)
 	var refGot []verifMsg
 	for _, x := range rm {
 		refGot = append(refGot, verifFromRef(x))
@@ -297,6 +297,34 @@ func verifJudge(m *mon.M, w verifWire, seg vnet.Seg, rep map[string]interface{},
 		m.Count("agree_with_specification", 1)
 		if w.faulty {
 			m.Count("fault_streams_rejected", 1)
+			return
+		}
+		// the same wire delivered as a peer that waits for an answer delivers it: the bytes up to the end of message k,
+		// then nothing until message k has been returned.  A reader that wants bytes of the next chunk before it hands
+		// out a complete message (a read-ahead, a peek) hangs every request/response exchange on a real connection;
+		// here the transport answers a read on the empty queue with an error instead of blocking.
+		if len(ends) == len(w.expect) {
+			q := vnet.NewQueue(seg)
+			p := NewProtocol(vnet.RW{Reader: q, Writer: io.Discard})
+			prev := 0
+			for k, e := range ends {
+				q.Write(w.data[prev:e])
+				prev = e
+				got, err := p.ReadMessage()
+				if err != nil {
+					m.Violationf("c02:message-not-delivered-when-its-bytes-arrived"+scope, rep, "message %d of %d is complete at wire offset %d, but ReadMessage wants more bytes before it returns it: %.200v; script: %s", k, len(ends), e, err, w.describe)
+					return
+				}
+				if ok, why := verifSame(w.expect[k], verifFromLib(got)); !ok {
+					m.Violationf("c02:messages-differ:incremental"+scope, rep, "message %d delivered incrementally: %s; script: %s", k, why, w.describe)
+					return
+				}
+			}
+			if q.EmptyReads != 0 {
+				m.Violationf("c02:reader-reads-beyond-the-message"+scope, rep, "%d reads on the empty transport while every message's bytes were already there; script: %s", q.EmptyReads, w.describe)
+				return
+			}
+			m.Count("wires_delivered_message_by_message", 1)
 		}
 		return
 	}
